@@ -24,6 +24,7 @@ class Org(Symbol):
     part_of: List[Org] = field(default_factory=list)
     has_part: List[Org] = field(default_factory=list)
     linked_to: List[Org] = field(default_factory=list)
+    headed_by: List[Boss] = field(default_factory=list)
 
     def __repr__(self):
         return f"Org({self.name})"
@@ -94,7 +95,18 @@ class WorksFor(MemberOf):
 
 @dataclass
 class HeadOf(WorksFor):
-    pass
+    """a role property with an inverse of its own on its range"""
+
+    @classmethod
+    def get_inverse(cls) -> Type[HeadedBy]:
+        return HeadedBy
+
+
+@dataclass
+class HeadedBy(PropertyDescriptor, HasInverseProperty):
+    @classmethod
+    def get_inverse(cls) -> Type[HeadOf]:
+        return HeadOf
 
 
 @dataclass
@@ -125,5 +137,6 @@ Org.members = Member(Org, "members")
 Org.part_of = PartOf(Org, "part_of")
 Org.has_part = HasPart(Org, "has_part")
 Org.linked_to = LinkedTo(Org, "linked_to")
+Org.headed_by = HeadedBy(Org, "headed_by")
 
 CLASSES = {"Org": Org, "Agent": Agent, "Fellow": Fellow, "Boss": Boss}
